@@ -109,7 +109,7 @@ Proof.
     { rewrite HM. cbn [m_nglobals]. destruct (pglobals pr); [contradiction|reflexivity]. }
     assert (Hife : fentry_at M (length es) = Some ife).
     { unfold fentry_at. rewrite HM. cbn [m_fns]. rewrite nth_error_app2, Nat.sub_diag by lia. reflexivity. }
-    destruct (compile_fns_spec _ _ _ _ _ _ _ _ Ef) as (_ & P23 & _).
+    destruct (compile_fns_spec _ _ _ _ _ _ _ _ Ef) as (Hles & P23 & _).
     assert (Hstr : m_strings M = p3) by (rewrite HM; reflexivity).
     destruct Hms as (Hsm1 & Hsm2 & Hsm3 & Hsm4).
     assert (Hlims : lims G 0 (length p2)).
@@ -117,7 +117,7 @@ Proof.
       - cbn. lia.
       - apply pool_le_length in P23. rewrite Hstr in Hsm2. lia.
       - apply (HG pr Hsmall).
-      - unfold G, prog_genv. cbn [g_fns]. rewrite map_length. rewrite HM in Hsm4. cbn [m_fns] in Hsm4. rewrite app_length in Hsm4. lia. }
+      - unfold G, prog_genv. cbn [g_fns]. rewrite map_length. rewrite HM in Hsm4. cbn [m_fns] in Hsm4. rewrite app_length in Hsm4. unfold fns in Hles. lia. }
     destruct (compile_globals_wf G _ _ _ _ _ Ecg Hlims) as [Wcg _].
     { unfold G, prog_genv. cbn [g_globals]. rewrite map_length. lia. }
     assert (Hicode : fn_code M ife (cg ++ epi)).
@@ -133,7 +133,6 @@ Proof.
     pose proof (sim_globals pr M Hcomp Hsmall fuel (length es) ife (cg ++ epi) 0 []
                   (conj Hife (conj Hicode Hisz)) Hfuel Hnd (pglobals pr) 0 p1 cg p2 [] [] [] 0 Ecg Hcg0 eq_refl match_genv_nil
                   eq_refl Hgok ltac:(rewrite Hstr; exact P23)) as HR.
-    cbn [fe_off ife Nat.add] in HR.
     (* the epilogue of __init__ *)
     assert (HR' : Reach M (mkst (length es) 0 [] [] [] 0 [] [])
               (rpost (fun genv' out' m => exists g', m = MDone out' MVoid g' /\ match_genv G genv' g')
@@ -141,7 +140,6 @@ Proof.
     { eapply (rpost_seq M); [exact HR|]. intros genv' o' m (g' & -> & Hg').
       assert (Hce : code_at (cg ++ epi) (0 + csize cg) epi) by (exists cg, []; split; [rewrite app_nil_r; reflexivity|lia]).
       unfold epi in Hce.
-      change 0 with (fe_off ife) at 3.
       vstep Hife Hicode Hce step_push_void. vnext Hce.
       at_code Hce. apply Reach_one. erewrite step_ret; [|eapply fetch_at; eassumption].
       exists g'. split; [reflexivity|exact Hg']. }
